@@ -165,7 +165,7 @@ pub fn build_universe(cfg: &Value) -> Rc<Universe> {
             found = Some((bh, by_class));
             break;
         }
-        let (bh, bc) = found.expect("tool error: no hasher seed realises the requested alt-bucket function");
+        let (bh, bc) = found.unwrap_or_else(|| probe_failed("no hasher seed realises the requested alt-bucket function"));
         let mut keys = vec![];
         let mut f = vec![];
         let mut i1 = vec![];
